@@ -15,6 +15,23 @@ It is also expected that a session has been created *after* handshaking has been
 mod client;
 mod server;
 
+#[cfg(rml_verif)]
+thread_local! {
+    static VERIF_ELAPSED_MS: std::cell::Cell<Option<u64>> = std::cell::Cell::new(None);
+}
+
+/// Verification hook: when set, sessions on this thread read this many elapsed milliseconds
+/// instead of the system clock (fed through the same `as u32` truncation).
+#[cfg(rml_verif)]
+pub fn verif_set_elapsed_ms(milliseconds: Option<u64>) {
+    VERIF_ELAPSED_MS.with(|x| x.set(milliseconds));
+}
+
+#[cfg(rml_verif)]
+pub(crate) fn verif_elapsed_ms() -> Option<u64> {
+    VERIF_ELAPSED_MS.with(|x| x.get())
+}
+
 pub use self::client::ClientSession;
 pub use self::client::ClientSessionConfig;
 pub use self::client::ClientSessionError;
